@@ -545,6 +545,21 @@ def judge(case: Dict[str, Any], want_obs: bool = False, _nofollow: bool = False)
     if "err" in obs:
         j.val.append(("exec-error", "python exception: " + obs["err"].split(":")[0], obs["err"]))
         j.loc.append(("exec-error", "python exception: " + obs["err"].split(":")[0], obs["err"]))
+        if not _nofollow:
+            # round-5 input tags (only these two: the older dimensions keep their untagged exec-error classes)
+            tag = ""
+            for present, c2, t in (
+                    (case.get("power", "running") != "running",
+                     dict({k: v for k, v in case.items() if not (k == "prior" and v.get("sets_power"))}, power="running"),
+                     TAG_POWER),
+                    (bool(case.get("coexec")), {k: v for k, v in case.items() if k != "coexec"}, TAG_COEXEC)):
+                if present:
+                    j2 = judge(c2, _nofollow=True)
+                    if j2.status == "ok" and ("exec-error", j.loc[-1][1]) not in {(a, b) for a, b, _ in j2.loc}:
+                        tag += t
+            if tag:
+                j.loc = [(a, b + tag, c) for a, b, c in j.loc]
+                j.val = [(a, b + tag, c) for a, b, c in j.val]
         return j
     if obs.get("len") != length:
         # the emulator executed an instruction of another length than the one the bytes at PC disassemble to: values
